@@ -153,10 +153,18 @@ func (r *Runner) execMacro(a Action) {
 				r.feat("isolated-group-with-a-non-pre-vote-server")
 			}
 		}
+		// a member may adopt the (already higher) term of a co-isolated member;
+		// what must not happen is a term beyond the highest one in the group
+		var groupTerm uint64
+		for id := range iso {
+			if in := r.liveByID(id); in != nil && in.R.CurrentTerm() > groupTerm {
+				groupTerm = in.R.CurrentTerm()
+			}
+		}
 		for id := range iso {
 			if in := r.liveByID(id); in != nil && minority {
 				r.W.Mu.Lock()
-				r.isolated[id] = &isoRec{in: in, term: in.R.CurrentTerm(), since: w.Now()}
+				r.isolated[id] = &isoRec{in: in, term: groupTerm, since: w.Now()}
 				r.W.Mu.Unlock()
 			}
 		}
